@@ -1284,6 +1284,17 @@ R('presorted-groups', 1,
    lambda e, w: e.aggregate(w.s[0], ('a', 'd'), list, 'c', presorted=True),
    lambda e, w: e.mergeduplicates(w.s[0], ('a', 'd'), presorted=True)],
   'transform.reductions', stream=FIL0, profile='sorted')
+# a merge that can produce nothing more once its second input has ended: the
+# second source is short (it is not scaled with the first one), so consumers
+# that ask for more rows than there are matches see how the operator behaves
+# after that input is exhausted - it must not read on through the first one
+R('presorted-merge-short', 2,
+  [lambda e, w: e.intersection(w.s[0], w.s[1], presorted=True),
+   lambda e, w: e.join(w.s[0], w.s[1], key='a', presorted=True),
+   lambda e, w: e.join(w.s[0], w.s[1], key=('a', 'b'), presorted=True)],
+  'transform.setops', stream=FIL0, build=(1,), profile='sorted', rect=True)
+RECIPES['presorted-merge-short'].stops_with = 1
+RECIPES['presorted-merge-short'].stackable = False
 # (presorted accepted, but the whole input is read before the first row)
 R('presorted-other', 1,
   [lambda e, w: e.pivot(w.s[0], 'a', 'd', 'c', sum, presorted=True),
